@@ -10,7 +10,9 @@ from props.common import BASE_TRUSTED
 PROP_FILES = ["Properties_C19"]
 TRUSTED = BASE_TRUSTED + [
     "modelled: the m_state word protocol of collaborative_once_flag (winner CAS, helper +1 CAS window, lifetime_guard pin, fetch_sub, set_completion_state, runner destruction)",
-    "modelled, not verified: task_arena attach/execute/isolate and the moonlighting wait inside assist(), enumerable_thread_specific's table (claim CAS, growth) and combinable — real-thread oracle runs only; "
+    "modelled: the thread-id table of enumerable_thread_specific (EtsModel: my_count, chain of arrays, sizing loop, publication CAS, re-insertion) — tied sequentially (ets-seq); its concurrent behaviour is "
+    "covered by theorems about the model and by real-thread oracle runs with lined-up growth (ets-grow), not by a step-level tie; slots are abstracted to key sets (hash positions not modelled)",
+    "modelled, not verified: task_arena attach/execute/isolate and the moonlighting wait inside assist(), combinable — real-thread oracle runs only; "
     "the trace-conformance replayer's canonicalisation (runner address -> winner thread, Python) and the lock-and-log hooks of drv_oncetrace are trusted; the decision which logged access is a model step is made inside Coq (OnceConf.takes_step)",
 ]
 
@@ -208,6 +210,18 @@ def run(ctx):
     oracle_tie(ctx, "ets", exe, ["ets"], ecases, ets_oracle, describe=edesc, bucket=lambda c: "ets T=%d" % c[1], timeout=600)
 
 
+    # ---- thread-id table, sequential semantics tied to EtsModel (sizes of the arrays, re-insertion at the top, counts)
+    scases = []
+    for i in range(ctx.scale(150, 4000)):
+        T = rng.choice([1, 2, 3, 5, 8, 9, 17, 33])
+        seq_ = []
+        for _ in range(rng.randint(1, 3 * T)):
+            seq_.append(rng.randrange(T) if rng.random() < 0.7 else rng.randrange(max(1, T // 2)))
+        scases.append([T] + seq_)
+    ctx.rules.append("ets-seq: 1-33 OS threads access one enumerable_thread_specific one at a time in a seeded order (new threads, repeated accesses found at the top or re-inserted from an older array); "
+                     "my_count, the chain of arrays (lg_size, used slots) and the initialiser calls per thread compared with EtsModel")
+    vlib.diff_tie(ctx, "ets-seq", exe, ["etsseq"], "etsseq", scases, describe=lambda c: "ets sequential: %d threads, access order %s" % (c[0], c[1:]),
+                  bucket=lambda c: "ets-seq T=%d" % c[0])
     gcases = [[ctx.seed * 1000 + 300000 + i, rng.choice([5, 9, 9, 12, 17, 20, 33, 40]), rng.choice([0, 1, 2, 2, 3]), rng.choice([0, 0, 2, 3, 4, 5, 6, 7, 8])] for i in range(ctx.scale(60, 1500))]
     gcases[:4] = [[ctx.seed * 1000 + 300000, 9, 2, 6], [ctx.seed * 1000 + 300001, 17, 2, 6], [ctx.seed * 1000 + 300002, 12, 1, 5], [ctx.seed * 1000 + 300003, 33, 3, 8]]
     ctx.rules.append("ets-grow: an allocator holds every thread that allocates a table array (count incremented, root read, array not yet published) until K = 2-8 threads are inside, so K threads "
@@ -239,6 +253,8 @@ def replay(ctx, rep):
     if rep.get("tie") == "once-trace":
         texe, err = build_trace(ctx, lib)
         return trace_tie(ctx, texe, [rep["case"]])
+    if rep.get("tie") == "ets-seq":
+        return vlib.diff_tie(ctx, "ets-seq", exe, ["etsseq"], "etsseq", [rep["case"]])
     if rep.get("tie") == "ets-grow":
         rc, glines, err = ctx.run_driver(exe, ["etsgrow"], [rep["case"]], timeout=120)
         print(glines)
